@@ -937,6 +937,38 @@ def r_route_as_type(m, rnd):
             yield ctx, apply
 
 
+@rule('annotation_used_as_type')
+def r_annotation_as_type(m, rnd):
+    """Annotations and annotation types live in the namespace's symbol table but
+    are not types: naming one in a type position is an unresolved type reference."""
+    def cands(nsname):
+        return [x for x in m.ns(nsname).defs if x.kind in ('annotation', 'annotation_type')]
+    for fpath, d, f in fields_of(m):
+        if f.type is None:
+            continue
+        for steps, t in sub_types(f.type):
+            if t.kind != 'prim':
+                continue
+            for c in cands(d.ns)[:2]:
+                def apply(m2, fpath=fpath, steps=steps, c=c):
+                    set_nav(getf(m2, fpath), 'type', steps, T('raw', c.name, None, None, False))
+                yield '%s_%s%s' % (d.kind, c.kind, ''.join('>' + x for x in steps)), apply
+    for ctx, hg, attr, steps, t in type_slots(m):
+        hns = getattr(hg(m), 'ns', None)
+        if hns is None or t.kind not in ('prim', 'ref'):
+            continue
+        for c in cands(hns)[:2]:
+            def apply(m2, hg=hg, attr=attr, steps=steps, c=c):
+                set_nav(hg(m2), attr, steps, T('raw', c.name, None, None, False))
+            yield '%s_%s' % (ctx, c.kind), apply
+    for path, d in defs(m, ('struct', 'union')):
+        for c in cands(d.ns)[:2]:
+            if d.kind == 'struct' and not d.subtypes:
+                def apply(m2, path=path, c=c):
+                    getd(m2, path).parent = (c.ns, c.name)
+                yield 'extends_%s' % c.kind, apply
+
+
 # ---------------------------------------------------------------- E. examples
 
 def examples_of(m):
